@@ -480,9 +480,16 @@ CASE_FNS = {
 }
 
 
+def get_fn(name):
+    if name not in CASE_FNS:
+        from . import io_checks
+        CASE_FNS.update({"c15": io_checks.c15_case, "c12": io_checks.c12_case, "c12g": io_checks.c12_geff_case})
+    return CASE_FNS[name]
+
+
 def _run_chunk(task):
     name, cases = task
-    fn = CASE_FNS[name]
+    fn = get_fn(name)
     out = []
     n_nontrivial = 0
     for c in cases:
@@ -529,7 +536,7 @@ def run_cases(name, cases_iter, chunk=200, deadline=None, log=print):
 
 
 def replay(rec):
-    fn = CASE_FNS[rec["check_fn"]]
+    fn = get_fn(rec["check_fn"])
     case = _tuplify(rec["case"])
     return sorted({v["signature"] for v in fn(case)})
 
